@@ -1,6 +1,6 @@
 #!/venv/bin/python
 """Run every implemented property check against every seeded change (in memory; /repo untouched).
-Writes seeded/RESULTS.json and prints the matrix.  usage: tools/run_seeded.py [--own-only]"""
+Writes seeded/RESULTS.json and prints the matrix.  usage: tools/run_seeded.py [--own-only] [--only=<regex over seed ids>]  (with --only the result goes to RESULTS.partial.json)"""
 import contextlib, glob, io, json, os, sys
 from concurrent.futures import ProcessPoolExecutor
 HERE = os.path.dirname(os.path.dirname(os.path.abspath(__file__)))
@@ -44,12 +44,16 @@ if __name__ == "__main__":
     own = "--own-only" in sys.argv
     seeds = sorted(d for d in os.listdir(os.path.join(HERE, "seeded")) if os.path.isdir(os.path.join(HERE, "seeded", d)))
     props = sorted(os.path.basename(p)[:-3].upper() for p in glob.glob(os.path.join(HERE, "armiverif/props/c[0-9][0-9].py")))
+    import re
+    only = next((a.split("=", 1)[1] for a in sys.argv if a.startswith("--only=")), None)
+    if only:
+        seeds = [s for s in seeds if re.search(only, s)]
     jobs = [(s, [s[:3]] if own else props) for s in seeds]
     res = {}
     with ProcessPoolExecutor(16) as ex:
         for sid, out in ex.map(one, jobs):
             res[sid] = out
-    json.dump(res, open(os.path.join(HERE, "seeded", "RESULTS.json"), "w"), indent=1)
+    json.dump(res, open(os.path.join(HERE, "seeded", "RESULTS.partial.json" if only else "RESULTS.json"), "w"), indent=1)
     det = 0
     for sid in seeds:
         by = [p for p, v in res[sid].items() if v["exit"] == 1]
